@@ -134,6 +134,10 @@ class C12(Check):
             rng.shuffle(urls)
             plan["discovery"] = urls
         plan["db_lat"] = rng.choice([0.0001, 0.002, 0.02])
+        # a second writer holds the database's write lock now and then while recording (another gallia process recording into the
+        # same file), always for less than the handler's busy timeout: the rows must come out in the order of the requests
+        rng6 = rng_for(seed, "C12-db-busy", index)
+        plan["db_busy"] = [[round(rng6.uniform(0.0, 3.0), 3), rng6.choice([0.05, 0.5, 3.0])] for _ in range(rng6.choice([1, 3]))] if rng6.random() < 0.2 else []
         plan["net_seed"] = rng.getrandbits(30)
         return plan
 
@@ -175,6 +179,8 @@ class C12(Check):
         dbpath = tmp / "rec.sqlite"
         world.net.policy_factory = lambda i, d: Policy(seed=plan["net_seed"] + 2 * i + (d == "s2c"), segment="random")
         world.sql.latency = lambda c, n: plan["db_lat"]
+        for t0_, dur_ in plan.get("db_busy") or []:
+            world.sql.lock_windows.append((t0_, t0_ + dur_))
         world.install()
         recs = plan["recs"]
         ri = plan["replay"] % len(recs)
@@ -307,6 +313,8 @@ class C12(Check):
                 return
             raise RuntimeError(f"recording failed: {out}")
         world.sql.close_all()
+        if world.sql.lock_waits:
+            bump(res["faults"], "database_locked_by_a_second_writer_while_recording", world.sql.lock_waits)
         res["vtime"] += out["vtime"]
         res["steps"] += out["steps"]
 
